@@ -26,9 +26,10 @@ Definition eff (s : pst) (ret : Z) (s' : pst) : Prop :=
   (ret = 1 \/ ret = 3 \/ ret = 7 -> exists n, pelems (pth s') = pelems (pth s) ++ [n]) /\
   (ret = 2 \/ ret = 4 -> pelems (pth s') = pelems (pth s)).
 
-(* no read outside the post data *)
+(* no read outside the post data: the code is none of the two model-only codes
+   (RFault, ROutOfFuel, both below -9000) *)
 Definition safe (s : pst) (ret : Z) (s' : pst) : Prop :=
-  sinv s -> ret <> RFault /\ pinv2 (pth s') /\ (ret = 4 \/ ret = 7 -> 0 <= valid s' <= plen (pth s')).
+  sinv s -> -9000 < ret /\ pinv2 (pth s') /\ (ret = 4 \/ ret = 7 -> 0 <= valid s' <= plen (pth s')).
 
 Definition el (l : list Z) (s : pst) (x : R) : Prop :=
   let '(ret, r, s') := x in tm l s r s' /\ eff s ret s' /\ safe s ret s'.
@@ -91,10 +92,10 @@ Qed.
 (* a result that stops here: negative code, nothing read since the prefix *)
 Lemma eff_stop s ret s' : ret <= 0 -> eff s ret s'.
 Proof. intros A. unfold eff, okret. split; [lia|]. split; intros; exfalso; lia. Qed.
-Lemma safe_stop s ret s' : ret <= 0 -> ret <> RFault -> (sinv s -> pinv2 (pth s')) -> safe s ret s'.
+Lemma safe_stop s ret s' : ret <= 0 -> -9000 < ret -> (sinv s -> pinv2 (pth s')) -> safe s ret s'.
 Proof. intros A B D H. split; [assumption|]. split; [auto|]. intros; exfalso; lia. Qed.
 
-Lemma safe_stop' s ret s' : ret <= 0 -> (sinv s -> ret <> RFault /\ pinv2 (pth s')) -> safe s ret s'.
+Lemma safe_stop' s ret s' : ret <= 0 -> (sinv s -> -9000 < ret /\ pinv2 (pth s')) -> safe s ret s'.
 Proof. intros A D H. destruct (D H). split; [assumption|]. split; [auto|]. intros; exfalso; lia. Qed.
 
 Lemma tm_refl l s s' : calls s' = calls s -> tm l s l s'.
@@ -104,13 +105,13 @@ Proof. unfold tm, eofs. intros C (A1 & A2 & A3 & A4). rewrite <- C. auto. Qed.
 
 (* a result that stops here: no positive code, nothing read since the prefix *)
 Lemma el_stop l s ret s' :
-  ret <= 0 -> calls s' = calls s -> (sinv s -> ret <> RFault /\ pinv2 (pth s')) -> el l s (ret, l, s').
+  ret <= 0 -> calls s' = calls s -> (sinv s -> -9000 < ret /\ pinv2 (pth s')) -> el l s (ret, l, s').
 Proof.
   intros A C D. unfold el. split; [now apply tm_refl|split; [now apply eff_stop|now apply safe_stop']].
 Qed.
 (* the same after the end of input was reported *)
 Lemma el_stop_eof s ret s' :
-  ret <= 0 -> calls s' = calls s + 1 -> (sinv s -> ret <> RFault /\ pinv2 (pth s')) -> el [] s (ret, [], s').
+  ret <= 0 -> calls s' = calls s + 1 -> (sinv s -> -9000 < ret /\ pinv2 (pth s')) -> el [] s (ret, [], s').
 Proof.
   intros A C D. unfold el. split; [|split; [now apply eff_stop|now apply safe_stop']].
   unfold tm, eofs. autorewrite with pst. split; [auto with sfx|]. split; [lia|]. split; [lia|]. reflexivity.
@@ -326,7 +327,7 @@ Ltac stop_leaf :=
                  | intros ?H; split; [codes; try lia | autorewrite with pst; auto using sinv_pinv2] ].
 
 Lemma option_assign_el f take adderr l s :
-  adderr <= 0 -> adderr <> RFault -> el l s (option_assign f take adderr l s).
+  adderr <= 0 -> -9000 < adderr -> el l s (option_assign f take adderr l s).
 Proof.
   intros A1 A2. unfold option_assign.
   destruct (ncheck s (valid s) take <? 0) eqn:N.
@@ -431,7 +432,7 @@ Qed.
 
 (* continuation of the name loops: one more character *)
 Lemma loop_next_el (loop : Z -> list Z -> pst -> R) (err : Z -> Z) a l s s1 :
-  keeps s s1 -> (forall c s2, el l s2 (loop c l s2)) -> (forall c, err c <= 0 /\ err c <> RFault) ->
+  keeps s s1 -> (forall c s2, el l s2 (loop c l s2)) -> (forall c, err c <= 0 /\ -9000 < err c) ->
   el (a :: l) s (if a <? 0 then (err a, l, tick_raw s1)
                  else loop a l (if a =? 0 then tick_raw s1 else addch (tick s1 a) a)).
 Proof.
@@ -448,7 +449,7 @@ Proof.
     + apply pre_ok_addch. eapply pre_ok_trans; [exact P0|apply pre_ok_tick].
 Qed.
 Lemma loop_eof_el ret s s1 :
-  keeps s s1 -> ret <= 0 -> ret <> RFault -> el [] s (ret, [], tick_eof s1).
+  keeps s s1 -> ret <= 0 -> -9000 < ret -> el [] s (ret, [], tick_eof s1).
 Proof.
   intros (K1 & K2 & K3 & K4) A B. apply el_stop_eof; [assumption|autorewrite with pst; lia|].
   intros H. split; [assumption|]. autorewrite with pst. apply sinv_pinv2. auto.
@@ -510,8 +511,9 @@ Qed.
 Lemma section_add_el take cur l s : el l s (section_add take cur l s).
 Proof.
   unfold section_add. set (s1 := with_curr s cur).
-  assert (K : keeps s s1) by (subst s1; unfold keeps; autorewrite with pst; auto using sinv_with_curr).
-  destruct K as (K1 & K2 & K3 & _).
+  assert (K1 : calls s1 = calls s) by (subst s1; now autorewrite with pst).
+  assert (K2 : pelems (pth s1) = pelems (pth s)) by (subst s1; now autorewrite with pst).
+  assert (K3 : sinv s -> sinv s1) by (subst s1; apply sinv_with_curr).
   destruct (ncheck s1 (valid s1) take <? 0) eqn:N.
   - apply el_stop; [destruct (_ =? RFault); codes; lia|assumption|].
     intros H. split; [|apply sinv_pinv2; auto].
@@ -577,8 +579,6 @@ Lemma pre_loop_eq f a c l s :
     end).
 Proof. destruct l; reflexivity. Qed.
 
-Lemma keeps_with_curr s c : keeps s (with_curr s c) -> True. Proof. auto. Qed.
-
 Lemma pre_body_el f a c l s next :
   (forall s1, calls s1 = calls s -> pelems (pth s1) = pelems (pth s) -> (sinv s -> sinv s1) -> el l s (next s1)) ->
   el l s (pre_body f a c l s next).
@@ -637,4 +637,242 @@ Proof.
     eapply el_pre; [exact P|].
     destruct (c =? sstart f); [apply section_add_el|].
     eapply el_pre; [|apply pre_loop_el]. auto with pre.
+Qed.
+
+(* ---------------------------------------------------------------- enclosed style *)
+Lemma tm_pre l s r s1 r2 s2 : pre_ok l s r s1 -> tm r s1 r2 s2 -> tm l s r2 s2.
+Proof.
+  unfold pre_ok, tm, eofs. intros (A1 & A2 & A3 & A4 & A5) (B1 & B2 & B3 & B4).
+  split; [eapply suffix_trans; eassumption|]. split; [lia|]. split; [lia|]. intros. apply B4. lia.
+Qed.
+
+Lemma enc_loop_dl f l : forall s, let '(ok, r, s') := enc_loop f l s in dl l s r s'.
+Proof.
+  induction l as [|a l IH]; intros s; cbn [enc_loop].
+  - apply (dl_of_rd [] s (-2)). rd_leaf.
+  - destruct (a <=? 0) eqn:E.
+    + apply Z.leb_le in E. apply (dl_of_rd _ s (-1)). rd_leaf.
+    + set (s1 := addch (tick s a) a).
+      assert (P : pre_ok (a :: l) s l s1) by (subst s1; auto with pre).
+      assert (Pc : pcurr s1 = pcurr s) by (subst s1; now autorewrite with pst).
+      destruct (isspace a).
+      * eapply dl_pre; [exact P|exact Pc|]. apply dl_stop, keeps_refl.
+      * destruct (iscomment f a).
+        -- pose proof (endline_rd l s1) as X. destruct (endline l s1) as [[c2 r2] s2].
+           eapply dl_pre; [exact P|exact Pc|]. eapply dl_of_rd; exact X.
+        -- specialize (IH (set_valid s1)). destruct (enc_loop f l (set_valid s1)) as [[ok r] s'].
+           eapply dl_pre; [| |exact IH]; [auto with pre|now autorewrite with pst].
+Qed.
+
+(* readers started from a tweaked state *)
+Record rdw (l : list Z) (s : pst) (c : Z) (r : list Z) (s' : pst) : Prop := mkRdw {
+  w_tm : tm l s r s';
+  w_ch : 0 <= c -> eofs l s r s' = 0 /\ len r < len l;
+  w_elems : pelems (pth s') = pelems (pth s);
+  w_inv : sinv s -> sinv s' }.
+
+Lemma rd_w l s c r s' : rd l s c r s' -> rdw l s c r s'.
+Proof. intros [A B C D _ _]. constructor; assumption. Qed.
+Lemma rdw_rebase l s0 s c r s1 :
+  rdw l s0 c r s1 -> calls s0 = calls s -> pelems (pth s0) = pelems (pth s) -> (sinv s -> sinv s0) ->
+  rdw l s c r s1.
+Proof.
+  intros [T C E I] K1 K2 K3. constructor.
+  - unfold tm, eofs in *. rewrite <- K1. exact T.
+  - unfold eofs in *. rewrite <- K1. exact C.
+  - congruence.
+  - auto.
+Qed.
+Lemma rdw_pre l s c r s' : rdw l s c r s' -> 0 <= c -> pre_ok l s r s'.
+Proof.
+  intros [(A1 & A2 & A3 & A4) B C D] H. destruct (B H). unfold pre_ok.
+  split; [assumption|]. split; [assumption|]. split; [assumption|]. split; assumption.
+Qed.
+Lemma el_after_w l s c r s1 x : rdw l s c r s1 -> el r s1 x -> noread r s1 x -> el l s x.
+Proof. intros [T _ E I]. now apply el_after'. Qed.
+
+(* nextvis after the current operation was noted *)
+Lemma nextvis_curr_rdw f l s k :
+  let '(c, r, s1) := nextvis f l (with_curr s k) in rdw l s c r s1.
+Proof.
+  pose proof (nextvis_rd f l (with_curr s k)) as X.
+  destruct (nextvis f l (with_curr s k)) as [[c r] s1].
+  eapply rdw_rebase; [apply rd_w; exact X|..]; autorewrite with pst; auto using sinv_with_curr.
+Qed.
+
+(* name finished: check, add; used after the name loop of the enclosed style *)
+Lemma enc_finish_el (a : allow) r s :
+  el r s (let nc := ncheck s (valid s) (asect a) in
+          if nc <? 0 then ((if nc =? RFault then RFault else BadType), r, s)
+          else let (ad, p1) := path_add (pth s) (valid s) in
+               if ad <? 0 then (BadOperation, r, s)
+               else (PSection, r, mkPst (line s) (calls s) p1 0 (pcurr s))).
+Proof.
+  cbv zeta.
+  destruct (ncheck s (valid s) (asect a) <? 0) eqn:N.
+  - apply el_stop; [destruct (_ =? RFault); codes; lia|reflexivity|].
+    intros H. split; [|now apply sinv_pinv2].
+    pose proof (ncheck_safe s (asect a) H) as X. apply Z.eqb_neq in X. rewrite X. codes; lia.
+  - destruct (path_add (pth s) (valid s)) as [ad p1] eqn:PA.
+    destruct (ad <? 0) eqn:AN.
+    + apply el_stop; [codes; lia|reflexivity|]. intros H. split; [codes; lia|now apply sinv_pinv2].
+    + apply Z.ltb_ge in AN. destruct (path_add_elems _ _ _ _ PA) as [[X _]|[_ PE]]; [lia|].
+      unfold el. split; [apply tm_refl; reflexivity|]. split.
+      * unfold eff, okret. codes. cbn [pth]. split; [lia|]. split; [|intros; exfalso; lia].
+        intros _. eexists. exact PE.
+      * intros H. codes. cbn [pth]. split; [lia|]. split; [|intros; exfalso; lia].
+        eapply path_add_pinv; [|exact PA]. now apply sinv_pinv2.
+Qed.
+Lemma enc_finish_noread (a : allow) r s :
+  noread r s (let nc := ncheck s (valid s) (asect a) in
+          if nc <? 0 then ((if nc =? RFault then RFault else BadType), r, s)
+          else let (ad, p1) := path_add (pth s) (valid s) in
+               if ad <? 0 then (BadOperation, r, s)
+               else (PSection, r, mkPst (line s) (calls s) p1 0 (pcurr s))).
+Proof.
+  cbv zeta. unfold noread. destruct (_ <? 0); [split; reflexivity|].
+  destruct (path_add _ _) as [ad p1]. destruct (ad <? 0); split; reflexivity.
+Qed.
+
+Lemma enc_section_el f a l s : el l s (enc_section f a l s).
+Proof.
+  unfold enc_section.
+  pose proof (nextvis_curr_rdw f l s PSection) as X.
+  destruct (nextvis f l (with_curr s PSection)) as [[c r] s1].
+  destruct (c <=? 0) eqn:CN.
+  - eapply el_after_w; [exact X| |split; reflexivity]. stop_leaf.
+  - apply Z.leb_gt in CN. assert (C0 : 0 <= c) by lia.
+    pose proof (rdw_pre _ _ _ _ _ X C0) as P.
+    set (s2 := set_valid (addch (with_curr s1 (Z.lor PSection PName)) c)).
+    assert (P2 : pre_ok l s r s2) by (subst s2; auto with pre).
+    pose proof (enc_loop_dl f r s2) as D. destruct (enc_loop f r s2) as [[ok r3] s3].
+    destruct D as (T & E & I & _).
+    destruct P2 as (Q1 & Q2 & Q3 & Q4 & Q5).
+    eapply (el_after' l s r3 s3).
+    + eapply tm_pre; [|exact T]. unfold pre_ok. auto.
+    + congruence.
+    + auto.
+    + destruct ok; [apply enc_finish_el|stop_leaf].
+    + destruct ok; [apply enc_finish_noread|split; reflexivity].
+Qed.
+
+Lemma enc_other_el f a c l s : el l s (enc_other f a c l s).
+Proof.
+  unfold enc_other. destruct (negb (ostart f =? 0)).
+  - destruct (negb (c =? ostart f)).
+    + apply el_stop; [codes; lia|now autorewrite with pst|].
+      intros H. split; [codes; lia|]. autorewrite with pst. apply pinv2_addchar. now apply sinv_pinv2.
+    + eapply el_pre; [|apply parse_option_el]. auto with pre.
+  - eapply el_pre; [|apply parse_option_el]. auto with pre.
+Qed.
+
+Lemma format_enc_el f a prev l s : el l s (format_enc f a prev l s).
+Proof.
+  unfold format_enc. destruct (sstart f =? send f).
+  - destruct (prev =? PSectEnd); [apply enc_section_el|].
+    pose proof (nextvis_rd f l s) as X. destruct (nextvis f l s) as [[c r] s1].
+    destruct (c <? 0) eqn:CN.
+    + eapply el_after; [exact X| |split; cbn; now autorewrite with pst]. stop_leaf.
+    + apply Z.ltb_ge in CN. pose proof (rd_pre _ _ _ _ _ X CN) as P.
+      eapply el_pre; [exact P|].
+      destruct (_ && (c =? sstart f)).
+      * apply el_keep; [codes; auto|now autorewrite with pst|now autorewrite with pst|apply sinv_with_curr].
+      * destruct (negb (c =? sstart f)); [apply enc_other_el|apply enc_section_el].
+  - pose proof (nextvis_rd f l s) as X. destruct (nextvis f l s) as [[c r] s1].
+    destruct (c <? 0) eqn:CN.
+    + eapply el_after; [exact X| |split; cbn; now autorewrite with pst].
+      apply el_stop; [destruct (pelems _); [destruct (c =? -2)|]; codes; lia|now autorewrite with pst|].
+      intros H. split; [destruct (pelems _); [destruct (c =? -2)|]; codes; lia|].
+      autorewrite with pst. now apply sinv_pinv2.
+    + apply Z.ltb_ge in CN. pose proof (rd_pre _ _ _ _ _ X CN) as P.
+      eapply el_pre; [exact P|].
+      destruct (negb (c =? sstart f)); [apply enc_other_el|apply enc_section_el].
+Qed.
+
+(* ---------------------------------------------------------------- separated style *)
+Definition sep_fail (r : list Z) (s1 : pst) : R := (BadValue, r, with_curr s1 PSection).
+
+Definition sep_body (f : format) (a : allow) (c : Z) (l : list Z) (s : pst) (next : pst -> R) : R :=
+  if c =? send f then section_add (asect a) (Z.lor PSection PName) l s
+  else if iscomment f c then sep_fail l s
+  else if negb (isspace c) then next (set_valid s)
+  else if c =? 10 then sep_fail l s
+  else next s.
+
+Lemma sep_loop_eq f a c l s :
+  sep_loop f a c l s =
+  sep_body f a c l s (fun s1 =>
+    match l with
+    | [] => sep_fail [] (tick_eof s1)
+    | c' :: r =>
+      if c' <? 0 then sep_fail r (tick_raw s1)
+      else sep_loop f a c' r (if c' =? 0 then tick_raw s1 else addch (tick s1 c') c')
+    end).
+Proof. destruct l; reflexivity. Qed.
+
+Lemma sep_fail_el r s : el r s (sep_fail r s).
+Proof. unfold sep_fail. stop_leaf. Qed.
+Lemma sep_fail_noread r s : noread r s (sep_fail r s).
+Proof. unfold sep_fail. split; cbn; now autorewrite with pst. Qed.
+
+Lemma sep_body_el f a c l s next :
+  (forall s1, keeps s s1 -> el l s (next s1)) -> el l s (sep_body f a c l s next).
+Proof.
+  intros NX. unfold sep_body.
+  destruct (c =? send f); [apply section_add_el|].
+  destruct (iscomment f c); [apply sep_fail_el|].
+  destruct (negb (isspace c)); [apply NX, keeps_set_valid|].
+  destruct (c =? 10); [apply sep_fail_el|apply NX, keeps_refl].
+Qed.
+
+Lemma sep_loop_el f a l : forall c s, el l s (sep_loop f a c l s).
+Proof.
+  induction l as [|x l IH]; intros c s; rewrite sep_loop_eq; apply sep_body_el; intros s1 (K1 & K2 & K3 & K4).
+  - eapply (el_after' [] s [] (tick_eof s1)); [now apply tm_eof|now autorewrite with pst| |apply sep_fail_el|apply sep_fail_noread].
+    intros H. apply sinv_tick_eof. auto.
+  - assert (P0 : pre_ok (x :: l) s (x :: l) s1).
+    { eapply pre_ok_tweak; [apply pre_ok_refl|..]; auto. }
+    destruct (x <? 0).
+    + eapply el_pre; [eapply pre_ok_trans; [exact P0|apply pre_ok_tick_raw]|apply sep_fail_el].
+    + eapply el_pre; [|apply IH].
+      destruct (x =? 0).
+      * eapply pre_ok_trans; [exact P0|apply pre_ok_tick_raw].
+      * apply pre_ok_addch. eapply pre_ok_trans; [exact P0|apply pre_ok_tick].
+Qed.
+
+Lemma sep_first_el f a l s : el l s (sep_first f a l s).
+Proof.
+  unfold sep_first. destruct (negb (send f =? sstart f)); [|apply sep_loop_el].
+  pose proof (getchar_rd l s) as X. destruct (getchar l s) as [[c r] s1].
+  destruct (c <? 0) eqn:CN.
+  - eapply el_after; [exact X| |split; reflexivity].
+    apply el_stop; [destruct (c =? -2); codes; lia|reflexivity|].
+    intros H. split; [destruct (c =? -2); codes; lia|now apply sinv_pinv2].
+  - apply Z.ltb_ge in CN. eapply el_pre; [eapply rd_pre; eassumption|apply sep_loop_el].
+Qed.
+
+Lemma format_sep_el f a prev l s : el l s (format_sep f a prev l s).
+Proof.
+  unfold format_sep. destruct (Z.land prev 15 =? PSectEnd).
+  - eapply el_pre; [|apply sep_first_el]. auto with pre.
+  - pose proof (nextvis_rd f l s) as X. destruct (nextvis f l s) as [[c r] s1].
+    destruct (c <? 0) eqn:CN.
+    + destruct (c =? -2).
+      * eapply el_after; [exact X| |split; reflexivity].
+        apply el_stop; [lia|reflexivity|]. intros H. split; [codes; lia|now apply sinv_pinv2].
+      * eapply el_after; [exact X| |split; cbn; now autorewrite with pst]. stop_leaf.
+    + apply Z.ltb_ge in CN. pose proof (rd_pre _ _ _ _ _ X CN) as P.
+      eapply el_pre; [exact P|].
+      destruct (negb (c =? sstart f)).
+      * destruct (negb (c =? ostart f)); [|apply parse_option_el].
+        eapply el_pre; [|apply parse_option_el]. auto with pre.
+      * destruct (pelems (pth s1)) eqn:PE.
+        -- eapply el_pre; [|apply sep_first_el]. auto with pre.
+        -- apply el_keep; [codes; auto|now autorewrite with pst|now autorewrite with pst|apply sinv_with_curr].
+Qed.
+
+Lemma next_elem_el fam f a prev l s : el l s (next_elem fam f a prev l s).
+Proof.
+  destruct fam; cbn [next_elem];
+    [apply format_pre_el|apply format_enc_el|apply format_sep_el|apply parse_option_el].
 Qed.
